@@ -29,19 +29,22 @@ var genSwitches = map[string]bool{
 	"default.string": false, "default.enum": false, "default.list": false, "default.struct": false,
 	"default.union": false, "default.onRequired": false, "def.enum": false, "name.case": false,
 	"array.of.struct": false, "dict.of.struct": false,
+	"def.scalar":        false, // named plain scalar definition (`type UserName string`) referenced from members
+	"sharedshape":       false, // the same union type drawn again for another member (clone of an earlier one)
+	"int.nullablePlain": false, // forced only: nullable unbounded int64 (JSON Schema type-array spelling)
 	// off by default: each is a known trouble spot of cog or of a schema language
-	"struct.empty":         true, // every front-end maps a property-less object to `any`
-	"def.scalar":           true, // named scalar alias (constraints on it are never validated, C08)
-	"def.collection":       true, // named array / dict alias
-	"name.collide":         true, // foo_bar + fooBar in one struct (Go identifier collision, C02)
-	"name.keyword":         true, // field names that are Python/Go keywords (from, class, type)
-	"name.dash":            true, // field names that are not identifiers (with-dash)
-	"enum.oddNames":        true, // enum members "", "<", "with space", "1x"
-	"int.hugeBounds":       true, // bounds beyond 2^53
-	"oneOfScalars.overlap": true, // int|num, string|date-time: more than one branch accepts a value
-	"disc.ambiguous":       true, // union branches with two candidate discriminator fields (C03)
-	"default.emptyList":    true,
-	"default.struct.list":  true, // a list inside a struct default (cog's CUE front-end: "closed lists are not supported")
+	"struct.empty":           true, // every front-end maps a property-less object to `any`
+	"def.scalar.constrained": true, // named scalar alias WITH bounds / length limits (constraints on it are never validated, C08)
+	"def.collection":         true, // named array / dict alias
+	"name.collide":           true, // foo_bar + fooBar in one struct (Go identifier collision, C02)
+	"name.keyword":           true, // field names that are Python/Go keywords (from, class, type)
+	"name.dash":              true, // field names that are not identifiers (with-dash)
+	"enum.oddNames":          true, // enum members "", "<", "with space", "1x"
+	"int.hugeBounds":         true, // bounds beyond 2^53
+	"oneOfScalars.overlap":   true, // int|num, string|date-time: more than one branch accepts a value
+	"disc.ambiguous":         true, // union branches with two candidate discriminator fields (C03)
+	"default.emptyList":      true,
+	"default.struct.list":    true, // a list inside a struct default (cog's CUE front-end: "closed lists are not supported")
 	// known-bad constructs: cog generates code that does not compile / import (see LAB.md, "Known failures")
 	"default.list.nonString":   true, // list default of numbers/bools is emitted as []string{…}
 	"enumI.signCollision":      true, // 1 and -1 in one integer enum: member names collide (JSON Schema / OpenAPI)
@@ -97,6 +100,7 @@ type srcGen struct {
 	noConstS bool          // inside a union branch: no other constant string fields
 	used     map[string]bool
 	filled   map[string]bool
+	shapes   []*Src // unions of scalars drawn so far (candidates for reuse)
 }
 
 var rootNames = []string{"Root", "Doc", "Config", "Panel"}
@@ -129,6 +133,10 @@ var forceList = []string{"any", "string.minLen", "const.string", "int.narrow", "
 	"oneOfStructs", "field.required+nullable", "default.int", "default.struct", "dict.of.struct",
 	"string.dateTime", "const.bool", "int.bounds", "struct.nested", "default.num", "default.string",
 	"default.enum", "default.union", "name.case", "def.enum"}
+
+// forceList2: a second, short cycle (one entry per case index) of shapes that need two cooperating
+// sites or a particular spelling to matter: each comes back every len(forceList2) cases.
+var forceList2 = []string{"int.nullablePlain", "sharedshape", "def.scalar", "union.plain"}
 
 func genDefs(seed uint64, index int, o GenOpts) *Defs {
 	g := &srcGen{r: newRng(seed*0x1000193 + uint64(index)*0x9E3779B1 + 17), o: o, d: &Defs{},
@@ -164,6 +172,7 @@ func genDefs(seed uint64, index int, o GenOpts) *Defs {
 		for k := 0; k < 3; k++ {
 			g.force(forceList[(index*3+k)%n])
 		}
+		g.force2(forceList2[index%len(forceList2)])
 	}
 	g.linkUnreferenced()
 	g.fixStrconv()
@@ -213,11 +222,7 @@ func (g *srcGen) fillAll() {
 				ty = g.genEnumI()
 			}
 		case "scalar":
-			if g.r.chance(50) {
-				ty = g.genInt()
-			} else {
-				ty = g.genString()
-			}
+			ty = g.genNamedScalar()
 		case "collection":
 			if g.r.chance(50) {
 				ty = srcArray(g.genLeaf())
@@ -321,6 +326,9 @@ type wchoice struct {
 }
 
 func (g *srcGen) genTy(depth int, guarded bool) *Src {
+	if !g.o.avoid("sharedshape") && !g.o.avoid("oneOfScalars") && len(g.shapes) > 0 && depth < g.o.MaxDepth && g.r.chance(8) {
+		return pick(g.r, g.shapes).clone()
+	}
 	choices := []wchoice{{"string", 14}, {"int", 14}, {"bool", 7}, {"num", 8}, {"enumS", 6}, {"enumI", 4}, {"const", 5}, {"any", 4}, {"ref", 10}}
 	if depth < g.o.MaxDepth {
 		choices = append(choices, wchoice{"array", 10}, wchoice{"dict", 7}, wchoice{"struct.nested", 6}, wchoice{"oneOfScalars", 5}, wchoice{"oneOfStructs", 4})
@@ -681,7 +689,99 @@ func (g *srcGen) genOneOfScalars() *Src {
 			s.Alts = []*Src{srcString(), srcDateTime()}
 		}
 	}
+	g.shapes = append(g.shapes, s)
 	return s
+}
+
+// genNamedScalar: the type of a named scalar definition; plain unless def.scalar.constrained is on.
+func (g *srcGen) genNamedScalar() *Src {
+	var t *Src
+	switch g.r.intn(4) {
+	case 0:
+		t = g.genInt()
+	case 1:
+		t = g.genString()
+		t.DateTime = false
+	case 2:
+		t = g.genNum()
+	default:
+		return srcBool()
+	}
+	if g.o.avoid("def.scalar.constrained") {
+		t.MinLen, t.MaxLen, t.Lo, t.Hi, t.FLo, t.FHi = nil, nil, nil, nil, nil, nil
+	}
+	return t
+}
+
+// force2 adds the shapes of forceList2 to the root.
+func (g *srcGen) force2(tag string) {
+	o := g.o
+	if o.avoid(tag) && tag != "union.plain" {
+		return
+	}
+	g.cur = 0
+	switch tag {
+	case "int.nullablePlain":
+		if o.avoid("nullable") || o.avoid("int") {
+			return
+		}
+		g.addRootField(Field{Ty: srcInt(64, true, nil, nil), Required: g.r.chance(50), Nullable: true})
+	case "union.plain":
+		// a union of plain scalars with an unbounded int64 among them
+		if o.avoid("oneOfScalars") || o.avoid("int") {
+			return
+		}
+		alts := []*Src{srcInt(64, true, nil, nil), pick(g.r, []*Src{srcString(), srcBool()})}
+		if g.r.chance(50) {
+			alts[0], alts[1] = alts[1], alts[0]
+		}
+		u := srcOneOfScalars(alts...)
+		g.shapes = append(g.shapes, u)
+		g.addRootField(Field{Ty: u, Required: g.r.chance(50)})
+	case "sharedshape":
+		// the same union on two (or three) optional members of one struct
+		if o.avoid("oneOfScalars") || o.avoid("field.optional") {
+			return
+		}
+		var u *Src
+		if len(g.shapes) > 0 && g.r.chance(50) {
+			u = pick(g.r, g.shapes)
+		} else {
+			u = g.genOneOfScalars()
+		}
+		holder := g.rootStruct()
+		if name := g.anyStructDef(1); name != "" && g.r.chance(40) {
+			holder = g.d.lookup(name)
+		}
+		taken := map[string]bool{}
+		for _, x := range holder.Fields {
+			taken[normName(x.Name)] = true
+			taken[x.Name] = true
+		}
+		for k, n := 0, 2+g.r.intn(2); k < n; k++ {
+			pos := g.r.intn(len(holder.Fields) + 1)
+			f := Field{Name: g.fieldName(taken), Ty: u.clone(), Required: false}
+			holder.Fields = append(holder.Fields[:pos:pos], append([]Field{f}, holder.Fields[pos:]...)...)
+		}
+	case "def.scalar":
+		if o.avoid("ref") {
+			return
+		}
+		name := ""
+		for _, it := range g.d.Items {
+			if g.pendKind[it.Name] == "scalar" {
+				name = it.Name
+			}
+		}
+		if name == "" {
+			name = g.newDef("scalar")
+			g.fillAll()
+		}
+		g.addRootField(Field{Ty: srcRef(name), Required: false})
+		if g.r.chance(50) {
+			g.addRootField(Field{Ty: srcRef(name), Required: true})
+		}
+	}
 }
 
 func (g *srcGen) genOneOfStructs() *Src {
